@@ -436,7 +436,7 @@ def r7_group_cardinality(ctx, rule):
                             'the loader groups *all* lines with equal probability; using only the first value of a group '
                             'drops the other members (Markov levels with equal probability - in practice all levels with '
                             'probability 0.0 - are grouped and only the first level of the group is generated)', None, node)
-    ctx.floor(rule, PGF, n, 3, 'values[0] uses in the emitters')
+    ctx.floor(rule, PGF, n, 2, 'values[0] uses in the emitters')
 
 
 def rules(tier):
